@@ -241,6 +241,10 @@ def run(ctx: Ctx) -> None:
     ctx.notes.update(abstract_cases_total=total, observed_ok=nok)
     if nok < 500:
         raise MachineryError(f"vacuous run: only {nok} operations succeeded")
+    # B2: every successful call of the repository's own test-suite that was given a single key object was given a suitable one
+    # (KeyFit.tla layer D instantiated inside TraceApi.tla and evaluated by TLC on the recorded key)
+    from .c05 import trace_api
+    trace_api(ctx, "C06")
     ctx.rule = ("TLC enumerates (algorithm x key kind [oct 6 sizes, RSA 1024/2048, EC 4 curves, OKP 4 curves] x private/public x use x key_ops x "
                 "operation x entry-point path x sender curve); each case is one behaviour of the gate sequence replayed on the real library; "
                 "distinct_nontrivial = distinct cases executed")
